@@ -4,7 +4,42 @@ use crate::grammar::parse_tree::{InternToken, MatchMapping};
 use crate::grammar::repr::{Grammar, TerminalLiteral};
 use crate::lexer::re;
 use crate::rust::RustWrite;
+use regex_syntax::hir::{Capture, Hir, HirKind};
 use std::io::{self, Write};
+
+/// `regex_syntax` prints a repetition of a repetition without a group, so
+/// `(?:a{2})?` would be rendered as `a{2}?` and read back by the runtime as a
+/// lazy `a{2}`, and `(?:a+)?` as the lazy `a+?` (a different language). Put
+/// every repetition that is the operand of another repetition into a group
+/// of its own before rendering.
+fn group_nested_repetitions(hir: &Hir) -> Hir {
+    match hir.kind() {
+        HirKind::Empty | HirKind::Literal(_) | HirKind::Class(_) | HirKind::Look(_) => hir.clone(),
+        HirKind::Repetition(rep) => {
+            let mut rep = rep.clone();
+            let sub = group_nested_repetitions(&rep.sub);
+            rep.sub = Box::new(if let HirKind::Repetition(_) = sub.kind() {
+                Hir::capture(Capture {
+                    index: 1,
+                    name: None,
+                    sub: Box::new(sub),
+                })
+            } else {
+                sub
+            });
+            Hir::repetition(rep)
+        }
+        HirKind::Capture(cap) => {
+            let mut cap = cap.clone();
+            cap.sub = Box::new(group_nested_repetitions(&cap.sub));
+            Hir::capture(cap)
+        }
+        HirKind::Concat(subs) => Hir::concat(subs.iter().map(group_nested_repetitions).collect()),
+        HirKind::Alternation(subs) => {
+            Hir::alternation(subs.iter().map(group_nested_repetitions).collect())
+        }
+    }
+}
 
 pub fn compile<W: Write>(
     grammar: &Grammar,
@@ -40,7 +75,7 @@ pub fn compile<W: Write>(
                 },
             )
         })
-        .map(|(regex, skip)| (format!("{regex}"), skip))
+        .map(|(regex, skip)| (format!("{}", group_nested_repetitions(&regex)), skip))
         .map(|(regex_str, skip)| {
             // create a rust string with text of the regex; the Debug impl
             // will add quotes and escape
